@@ -154,7 +154,16 @@ def run(prog, rep, tier):
             n = nxts[0]
             # iterates the failsafe-id -> output-id map
             no = origins(body, [n.term.args[0].place[0]])
-            okmap = any('HashMap<u64, u64' in body.lty(l) or 'IntoIter<u64, u64' in body.lty(l) for l in no.locals)
+            # ... i.e. a map keyed by the failsafe id whose values come from the result of output.start_file (the output id, alone or in a record)
+            open_maps = set()
+            for ib in body.calls():
+                it = ib.term
+                if it.cmethod == 'insert' and len(it.args) == 3 and it.args[0].place is not None and it.args[2].place is not None:
+                    vo = origins(body, [it.args[2].place[0]])
+                    if any(cnorm(body.blocks[c].term) == 'ArchiveWriter::start_file' for c in vo.calls):
+                        open_maps |= {l for l in origins(body, [it.args[0].place[0]], through_calls=False).locals
+                                      if body.lty(l).startswith(('std::collections::HashMap<u64', 'std::collections::BTreeMap<u64'))}
+            okmap = bool(no.locals & open_maps)
             guard = None
             for bl in body.blocks:
                 if bl.idx not in body.reachable(n.idx):
